@@ -29,6 +29,15 @@ use std::sync::{Arc, Mutex};
 use serde_json::{json, Value};
 
 pub static CASE_START_MS: AtomicU64 = AtomicU64::new(0);
+/// outcomes of the texts of the running `front` batch so far (reported by the watchdog on a hang)
+pub static FRONT_OUTS: Mutex<Vec<String>> = Mutex::new(Vec::new());
+
+/// called by batch runners after each item: the deadline applies per item
+pub fn progress() {
+    if CASE_START_MS.load(Ordering::SeqCst) != 0 {
+        CASE_START_MS.store(now_ms(), Ordering::SeqCst);
+    }
+}
 
 fn now_ms() -> u64 {
     use std::time::{SystemTime, UNIX_EPOCH};
@@ -87,7 +96,8 @@ fn main() {
                 let g = cur_id.lock().unwrap();
                 if let Some((n, id)) = g.as_ref() {
                     let mut o = out.lock().unwrap();
-                    let _ = writeln!(o, "{}", json!({"id": id, "how": "timeout", "n": n}));
+                    let outs = FRONT_OUTS.try_lock().map(|v| v.clone()).unwrap_or_default();
+                    let _ = writeln!(o, "{}", json!({"id": id, "how": "timeout", "n": n, "done_outs": outs}));
                     let _ = o.flush();
                 }
                 std::process::exit(3);
